@@ -75,6 +75,8 @@ def judge(ctx, r):
             for typ, want in exp.items():
                 if typ not in KIND_OF_TYPE:
                     continue
+                if want[5] is not None and want[5].get("bad"):
+                    continue    # stored through a deliberately invalid request that the library happened to accept: outside "valid blocks"
                 kind = KIND_OF_TYPE[typ]
                 try:
                     blk = t.get_block(BlockType(typ))
@@ -92,7 +94,8 @@ def judge(ctx, r):
 
 def run(ctx):
     import sessions.c03 as c03
-    runs = C.explore(ctx, ctx.n(500, 6000), 12, c03.STYLES, p_invalid=0.15)
+    import itertools
+    runs = itertools.chain(C.explore(ctx, ctx.n(500, 6000), 12, c03.STYLES, p_invalid=0.15), C.explore_equal_sizes(ctx, depth=4 if ctx.thorough else 3))
     for r in runs:
         ctx.case((r.desc, str(C.jsonable_hist(r.hist))), nontrivial=C.nontrivial_history(r),
                  sample=dict(start=r.desc, ops=[s["op"][0] + ":" + s["real"] for s in r.steps]), tags=C.history_tags(r))
